@@ -395,10 +395,7 @@ def handle (j : Json) : Except String Ans := do
       let p : Prov.P ← get j "prov"
       let tbl : List (List Nat × Outcome) ← get j "table"
       let null : Rat ← get j "null"
-      let v (a : List Nat) : Outcome := match Prov.queryIdx p (a.map Int.ofNat) with
-        | .ok rows => tableLookup tbl rows
-        | .error _ => .other
-      pure (match Brute.scores p.nUnits v null with
+      pure (match Brute.scoresProv p (tableLookup tbl) null with
         | some s => .ok (ToJ.toJ s)
         | none => .err Err.other)
   | "mc" => do
@@ -411,10 +408,7 @@ def handle (j : Json) : Except String Ans := do
       let T : Nat ← getD j "truncSteps" 0
       let perms : List (List Nat) ← get j "perms"
       let clock : List Rat ← getD j "clock" []
-      let v (q : List Int) : Outcome := match Prov.queryIdx p q with
-        | .ok rows => tableLookup tbl rows
-        | .error _ => .other
-      pure (match MC.run p.nUnits v null mean { timeout := timeout, tolerance := tol, truncSteps := T } perms clock with
+      pure (match MC.runProv p (tableLookup tbl) null mean { timeout := timeout, tolerance := tol, truncSteps := T } perms clock with
         | some (some s) => .ok (ToJ.toJ s)
         | some none => .ok (Json.str "nan")
         | none => .err Err.other)
